@@ -335,7 +335,9 @@ def execute(sc):
                 gold = goldens[core.digest(spec)]
                 targeted = any(f['name'] and spec.get('name') and spec['name'] in f['name'] for f in w.plan.fired)
                 mem_injected = any(f['thread'] == t and f['op'] == k and f['kind'] == 'memerr' for f in S.fired)
-                if result != gold:
+                if isinstance(result, dict) and result.get('exc', [''])[0] == 'ArgsModified':
+                    viols.append(_viol('c15.args', '%s: %s' % (_opname(spec), result['exc'][1][:200]), thread=t, op=k))
+                elif result != gold:
                     if targeted and (_is_oserror_result(result) or (spec['op'] == 'cli' and result.get('ok', {}).get('status') != 0)):
                         stats['sink_faulted_ops'] += 1
                     elif mem_injected and isinstance(result, dict) and (result.get('exc', [''])[0] in ('InjectedMemoryError', 'MemoryError')
